@@ -51,6 +51,32 @@ CHECKS = {
         "trusted as the reader.",
         "DESIGN.md section 4, C03",
     ),
+    "C13": (
+        "exploration",
+        "property-based testing (Hypothesis): pure-numpy reference for "
+        "'entirely null at these labels' + find/harvest/find history oracle",
+        "Generated datasets (variables over subsets of the dimensions, "
+        "internal dimensions, whole-cell / per-element / per-variable null "
+        "masks, inf for isfinite) are decided against a numpy model of the "
+        "definition; parse_into_cases is queried with absent labels; and "
+        "harvesting exactly the reported cases must leave nothing missing.",
+        "Float variables; the loop part needs variables spanning all "
+        "parameter dimensions.",
+        "DESIGN.md section 4, C13",
+    ),
+    "C14": (
+        "exploration",
+        "property-based testing (Hypothesis): round-trip oracle + directory "
+        "listing oracle + cross-API consistency (load/merge/Harvester/delete)",
+        "Generated datasets (all dtype kinds, NaN/inf, 0-d, attrs) are saved "
+        "and loaded with both importable engines under eight name spellings; "
+        "values, dtypes, coordinates and attributes are compared, the "
+        "directory listing fixes the file name rule, and the same name is "
+        "then used through save_merge_ds, a fresh Harvester and delete_ds.",
+        "netcdf4/zarr engines cannot be imported here and are not exercised; "
+        "xarray/h5netcdf are trusted to store what they are given.",
+        "DESIGN.md section 4, C14",
+    ),
     "C19": (
         "exploration",
         "property-based testing (Hypothesis) against an exact Fraction "
